@@ -147,7 +147,7 @@ func c11HasTrigger(e string, d []byte) bool {
 	}
 }
 
-var c11BaseNames = []string{cfg.SStrikethrough, cfg.STable, cfg.STaskList, cfg.SFootnote, cfg.SDefList, cfg.STypographer, cfg.SLinkify, cfg.SCJKSimple}
+var c11BaseNames = []string{cfg.SStrikethrough, cfg.STable, cfg.STaskList, cfg.SFootnote, cfg.SDefList, cfg.STypographer, cfg.SLinkify, cfg.SCJKSimple, cfg.STypographerUTF8}
 
 func isCJK(n string) bool { return strings.HasPrefix(n, "cjk") }
 
@@ -390,6 +390,14 @@ func runC11(c *core.Ctx) {
 		}
 		a := cfg.Spec{Only: []string{}, Unsafe: r.Intn(2) == 0}
 		b := cfg.Spec{Only: []string{cj}, Unsafe: a.Unsafe}
+		switch r.Intn(4) {
+		case 0:
+			// on top of a Typographer that writes the characters themselves: what follows a line break may then be a non-ASCII
+			// character although the source is pure ASCII
+			a.Only, b.Only = []string{cfg.STypographerUTF8}, []string{cfg.STypographerUTF8, cj}
+		case 1:
+			a.Only, b.Only = []string{cfg.STypographer, cfg.SLinkify}, []string{cj, cfg.STypographer, cfg.SLinkify}
+		}
 		base := []rune{0x20000, 0x30000, 0x3000, 0xFEE0, 0x2F800 - 0x21, 0x1F300}[r.Intn(6)]
 		var tw []byte
 		for _, ch := range d {
